@@ -34,7 +34,7 @@ func init() {
 	core.Register(&core.Info{
 		ID: "C14", Level: "fault_enumeration", Exhaustive: true,
 		Rule: "case = a block of 32 fault scripts; a script fixes, for each attempt 1..max(retries,0)+1, one outcome from {ok; workspace / n-th read / n-th write / n-th chmod / commit failing retriably or permanently} x {nobody else commits; somebody commits before the attempt obtains its workspace} plus {somebody commits between the attempt's manifest read and its TryCommit -> genuine conflict}; attempt max+1 (reached only by a wrong loop) is scripted ok. " +
-			"ALL scripts are enumerated (prefix-pruned: nothing is scripted after an ok or permanent outcome because the loop must stop there) for every CommitRetries in {-2,-1,0,1,2,3} through endorse.VirtualFirmware in manifest mode (operations: GetChangeOps, manifest read, endorsement write, chmod, TryCommit; thorough adds the existence read, the manifest write, CommitRetries=4, snapshot mode with its 6 operations), " +
+			"ALL scripts are enumerated (prefix-pruned: nothing is scripted after an ok or permanent outcome because the loop must stop there) for every CommitRetries in {-2,-1,0,1,2,3} through endorse.VirtualFirmware in manifest mode (operations: GetChangeOps, manifest read, endorsement write, chmod, TryCommit; thorough adds the existence read, the manifest write, snapshot mode with its 6 operations, and CommitRetries=4 over the operations GetChangeOps, endorsement write, TryCommit), " +
 			"ALL pairs (thorough: also triples) of scripts over a 6-outcome alphabet for 2 (3) back ends in endorse.Context.VCSs with CommitRetries in {0,1,2}, and ALL 7^4 four-attempt scripts x 6 budgets through endorse.RetrySubmit with a caller-supplied change function (scripts there continue past the budget). " +
 			"The back end is a model with a committed head, snapshot workspaces and optimistic commits; the concurrent writer does a correct read-modify-write of the manifest. The seed only varies image, candidate name, directories, timestamp and whether the depot starts empty or with 2 manifest entries. " +
 			"Oracle over the call log: attempts <= max(retries,0)+1; attempt k+1 only if attempt k did not commit, its last back-end error was retriable and RetriableError answered true; every operation of attempt k is on the workspace obtained in attempt k and never on a destroyed one; a manifest write is preceded by a manifest read from the same workspace; Destroy exactly once per failed attempt that obtained a workspace; nil result <=> every back end accepted a commit; Result exactly once with that commit after it, never without a commit; committed manifest keeps every entry that the writer or an earlier run committed. " +
@@ -100,6 +100,7 @@ var (
 	opsManifestFull  = []opRef{{"get", 1}, {"read", 1}, {"read", 2}, {"write", 1}, {"chmod", 1}, {"write", 2}, {"commit", 1}}
 	opsSnapshot      = []opRef{{"get", 1}, {"write", 1}, {"chmod", 1}, {"write", 2}, {"chmod", 2}, {"commit", 1}}
 	opsMulti         = []opRef{{"get", 1}, {"write", 1}, {"commit", 1}}
+	opsDeep          = []opRef{{"get", 1}, {"write", 1}, {"commit", 1}}
 )
 
 // job is one submission to run.
@@ -181,7 +182,7 @@ func jobs(thorough bool) []job {
 		}
 	}
 	{
-		retri, term := alphabet(opsManifestQuick, true)
+		retri, term := alphabet(opsDeep, true)
 		for _, s := range enumerate(maxAttempts(4), retri, term) {
 			js = append(js, job{vf, "manifest", 4, []script{s}})
 		}
@@ -267,6 +268,9 @@ func run(c *core.Ctx) {
 		c.End(i)
 	}
 	c.Max("scripts-enumerated-in-tier", int64(len(js)))
+	if c.Only >= 0 {
+		return // a replay decides by its violations only
+	}
 	for _, b := range budgets {
 		n := fmt.Sprintf("budget-used-up-exactly(CommitRetries=%d:%d-attempts-then-ErrNoRetries)", b, maxAttempts(b))
 		c.Floor(n, fl[n])
